@@ -326,3 +326,24 @@ func Forced(name string) (value, forced bool) {
 	}
 	return false, false
 }
+
+var overrides sync.Map // name -> uint32
+
+// SetOverride replaces the value the library computed at the decision `name`
+// (on = false restores the library's own value).
+func SetOverride(name string, v uint32, on bool) {
+	if !on {
+		overrides.Delete(name)
+		return
+	}
+	overrides.Store(name, v)
+}
+
+// Override is consulted where the library has computed a set of candidates to
+// try (every subset is valid: the result records which one was used).
+func Override(name string, natural uint32) uint32 {
+	if v, ok := overrides.Load(name); ok {
+		return v.(uint32)
+	}
+	return natural
+}
